@@ -188,9 +188,11 @@ def main(tier, seed):
         for ci, cfg in enumerate(cfgs):
             for K in ((2, 3) if tier == "thorough" else (3,)):
                 c = dict(cfg, chains=K)
-                for (chain, hist) in sorted(warm_pairs(all_classes[K])):
-                    jobs.append((("pair", ci, K, chain, hist), "chains", c, list(hist) + [chain], None))
-                jobs.append((("orders", ci, K), "orders", c, None, None))
+                for pi, (chain, hist) in enumerate(sorted(warm_pairs(all_classes[K]))):
+                    # cold references under hash seed 0, warm replays under other hash seeds: a trace may depend on neither
+                    hseed = "0" if not hist else ["1", "2", str(1000 + seed), "77"][(pi + ci) % 4]
+                    jobs.append((("pair", ci, K, chain, hist), "chains", c, list(hist) + [chain], {"PYTHONHASHSEED": hseed}))
+                jobs.append((("orders", ci, K), "orders", c, None, {"PYTHONHASHSEED": "5"}))
         # real pool runs
         real_cfg = dict(cfgs[1], chains=2)
         hs = ["0", "1", "2", str(1000 + seed)]
